@@ -351,8 +351,44 @@ def item_storage(cat, adt):
                 continue
             if ib.derived:
                 continue
-            if ib.self_adt == adt and ib.name in LIFECYCLE_NAMES:
+            if ib.self_adt == adt and (ib.name in LIFECYCLE_NAMES or only_lifecycle_callers(F, ib, adt)):
                 continue
             res.add(f)
             break
     return res
+
+
+def callers_of(F):
+    if hasattr(F, "_callers"):
+        return F._callers
+    idx = {}
+    for key, d in F.raw_bodies.items():
+        owner = d["owner"].get("item_key", key)
+        for bl in d["blocks"]:
+            t = bl["term"]
+            if t["k"] == "call" and t.get("callee"):
+                ce = t["callee"]
+                for k in (ce.get("key"), (ce.get("resolved") or {}).get("key")):
+                    if k:
+                        idx.setdefault(k, set()).add(owner)
+    F._callers = idx
+    return idx
+
+
+def only_lifecycle_callers(F, ib, adt, _depth=0):
+    """a non-public helper all of whose (transitive) callers are write/lifecycle methods of adt"""
+    if ib.d.get("vis_pub") or ib.trait is not None or _depth > 3:
+        return False
+    cs = callers_of(F).get(ib.key, set())
+    if not cs:
+        return False
+    for ck in cs:
+        cb = F.bodies.get(ck)
+        if cb is None:
+            return False
+        if cb.self_adt == adt and cb.name in LIFECYCLE_NAMES:
+            continue
+        if cb.self_adt == adt and only_lifecycle_callers(F, cb, adt, _depth + 1):
+            continue
+        return False
+    return True
